@@ -241,7 +241,7 @@ pub fn run(args: &Args) -> i32 {
         "exploration",
         "request admission over all 3^5 (missing / wrong / right) pseudo-header combinations x 3 extra-field sets (none, ordinary, look-alikes differing by case or trailing space); every numeric StatusCode constructor over every value 0..=65535 plus 2^k+d up to 2^64; FromStr over every decimal 0..=65535 in plain form and 11 decorated forms; the response path over the same texts; insert() over reserved and near-reserved names; SessionRequest::new over https / non-https URLs; distinct by construction, all non-trivial",
     );
-    let _ = args.tier == Tier::Thorough;
+    let _ = args.tier >= Tier::Thorough;
     let mut viol = |what: String, sc: Value| rep.violation(Violation { what, scenario: sc, tags: vx::tags(&[("engine", "protox".into())]) });
     let mut n = 0u64;
     // requests
